@@ -78,7 +78,8 @@ bool class_in_scope(const std::string &prop, const std::string &cls, int mode, b
   if (prop == "C07") {
     if (!external) return false;
     if (cls == "prefix_modified") return true;
-    return cls == "ret" && expect_fail == FR_RESERVE;
+    // the 20-byte rule is judged at the model's positions, which are the library's own only when no padding is involved
+    return cls == "ret" && expect_fail == FR_RESERVE && mode != M_FIT;
   }
   if (prop == "C08") {
     if (external) return false;
